@@ -299,6 +299,27 @@ func judgeVMHistory(cfg vmregCfg, out *vmregOut) [][2]string {
 			sets[e.Name] = append(sets[e.Name], e)
 		}
 	}
+	// a constant is defined once: of all SetConstant calls for one name at most one may report success,
+	// and a later read returns the winner's value
+	for n, ss := range sets {
+		var winners []vmregEv
+		for _, e := range ss {
+			if e.Ok {
+				winners = append(winners, e)
+			}
+		}
+		if len(winners) > 1 {
+			add("cell:history:constant-double-success", fmt.Sprintf("%d SetConstant(C%d) calls reported success (values %d and %d): a duplicate definition must be rejected for all but one registrant", len(winners), n, winners[0].Obj, winners[1].Obj))
+		}
+		if len(winners) == 1 {
+			for _, e := range out.Events {
+				if vmregOps[e.Op] == "GetConstant" && e.Name == n && e.Ok && e.Start > winners[0].End && e.Obj != winners[0].Obj {
+					add("cell:history:constant-overwritten", fmt.Sprintf("GetConstant(C%d) returned %d after the only successful SetConstant (value %d) had returned", n, e.Obj, winners[0].Obj))
+					break
+				}
+			}
+		}
+	}
 	for _, e := range out.Events {
 		if vmregOps[e.Op] != "GetConstant" {
 			continue
